@@ -39,4 +39,79 @@ def evSys : Sys EV EVT := { step := evStep }
 
 def EVT.finished (t : EVT) : Bool := t.todo.isEmpty && t.script.isEmpty
 
+/-! ## Lock level: `evict()`'s test and its update as separate steps
+
+`evSys` makes `evict()` one step.  Here the write lock of the eviction state is part of the state and `evict()` is
+`Lock` → test `slot <= lastEvictedSlot` → (collect the events, store the slot) → `Unlock`, one step each, the update
+*not* re-testing (as in the code).  `inside = true` is the code: the test is made under the write lock.
+`inside = false` is the variant that decides "evicted already" in front of the critical section (under the read lock
+only) and takes the write lock afterwards.  `EvictionEvent` holds the read lock: it cannot run while the write lock is
+held. -/
+
+structure EVL where
+  ev : EV
+  lock : Bool        -- `e.mutex` is write-locked
+
+inductive EVLT
+  | run (t : EVT)
+  | check (slot : Int) (sc : List EVCall)         -- `evict()`: about to test `slot <= lastEvictedSlot`
+  | waitLock (slot : Int) (sc : List EVCall)      -- `inside = false` only: test passed, about to `Lock`
+  | update (slot : Int) (sc : List EVCall)        -- holds the write lock, test passed: collect + store
+  | unlock (todo : List Int) (sc : List EVCall)   -- deferred `Unlock`
+deriving Repr, DecidableEq
+
+def EVT.atEvict (t : EVT) : Option (Int × List EVCall) :=
+  match t.todo, t.script with
+  | [], .evict slot :: sc => some (slot, sc)
+  | _, _ => none
+
+def EVT.atEvent (t : EVT) : Bool :=
+  match t.todo, t.script with
+  | [], .event _ :: _ => true
+  | _, _ => false
+
+def evlStep (inside : Bool) (s : EVL) : EVLT → List (EVL × EVLT)
+  | .run t =>
+    match t.atEvict with
+    | some (slot, sc) =>
+      if inside then (if s.lock then [] else [({ s with lock := true }, .check slot sc)])
+      else [(s, .check slot sc)]
+    | none =>
+      if t.atEvent && s.lock then []
+      else (evStep s.ev t).map (fun p => ({ s with ev := p.1 }, .run p.2))
+  | .check slot sc =>
+    if !inside && s.lock then []      -- the read lock of the variant waits for a writer
+    else if s.ev.evicted slot then
+      (if inside then [(s, .unlock [] sc)] else [(s, .run { todo := [], script := sc })])
+    else if inside then [(s, .update slot sc)] else [(s, .waitLock slot sc)]
+  | .waitLock slot sc => if s.lock then [] else [({ s with lock := true }, .update slot sc)]
+  | .update slot sc =>
+    [({ s with ev := { s.ev with last := some slot, events := s.ev.events.filter (fun i => !decide (i ≤ slot)) } },
+      .unlock (evFire s.ev.events slot) sc)]
+  | .unlock todo sc => [({ s with lock := false }, .run { todo := todo, script := sc })]
+
+def evlSys (inside : Bool) : Sys EVL EVLT := { step := evlStep inside }
+
+/-- The call-level thread a lock-level thread stands for: inside `evict()` the call has not happened yet until the
+update (or the positive test) is done. -/
+def EVLT.abs : EVLT → EVT
+  | .run t => t
+  | .check slot sc => { todo := [], script := .evict slot :: sc }
+  | .waitLock slot sc => { todo := [], script := .evict slot :: sc }
+  | .update slot sc => { todo := [], script := .evict slot :: sc }
+  | .unlock todo sc => { todo := todo, script := sc }
+
+def EVLT.finished : EVLT → Bool
+  | .run t => t.finished
+  | _ => false
+
+/-- Two evictors and one `EvictionEvent(4)`: with the test in front of the critical section `Evict(3)` passes the test,
+`Evict(5)` runs completely (and triggers the event of slot 4), then `Evict(3)` stores its slot. -/
+def evlBackSched : List (Nat × Nat) :=
+  [(2, 0), (0, 0), (0, 0), (1, 0), (1, 0), (1, 0), (1, 0), (1, 0), (1, 0), (0, 0), (0, 0), (0, 0)]
+
+def evlBackInit : Cfg EVL EVLT :=
+  ({ ev := EV.init, lock := false },
+    [.run ⟨[], [.evict 3]⟩, .run ⟨[], [.evict 5]⟩, .run ⟨[], [.event 4]⟩])
+
 end Hive.Derived
